@@ -60,9 +60,7 @@ def walk_sd(M, mva, iswrite):
     if M.sec_ext() and disabled:
         raise Abort('translation', mva, iswrite, {'level': 1, 'domain': None})
     l1addr = (bits(ttbr, 31, 14 - n) << (14 - n)) | (bits(mva, 31 - n, 20) << 2)
-    if M.virt_ext() and not M.is_secure():
-        raise Skip('stage 2 on table walk')
-    l1 = read_desc(M, l1addr, 4, big)
+    l1 = read_desc(M, second_stage_translate(M, l1addr, mva, iswrite), 4, big)
     kind = l1 & 3
     if kind == 0:
         raise Abort('translation', mva, iswrite, {'level': 1, 'domain': None})
@@ -71,7 +69,7 @@ def walk_sd(M, mva, iswrite):
     if kind == 1:
         domain = bits(l1, 8, 5)
         l2addr = (bits(l1, 31, 10) << 10) | (bits(mva, 19, 12) << 2)
-        l2 = read_desc(M, l2addr, 4, big)
+        l2 = read_desc(M, second_stage_translate(M, l2addr, mva, iswrite), 4, big)
         if (l2 & 3) == 0:
             raise Abort('translation', mva, iswrite, {'level': 2, 'domain': domain})
         ap = (bits(l2, 9, 9) << 2) | bits(l2, 5, 4)
@@ -110,40 +108,112 @@ def walk_sd(M, mva, iswrite):
     return dict(pa=pa, domain=domain, level=level, ap=ap, memtype=memtype)
 
 
-def walk_ld(M, ia, iswrite):
-    """stage-1 long-descriptor walk for the Non-Hyp translation regime"""
-    ttbcr = M.s['ttbcr']
-    big = (M.s['sctlr'] >> 25) & 1
-    ex = {'ldformat': True}
+def two_stage(M):
+    """Non-secure PL1&0 regime of an implementation with the Virtualization Extensions: its accesses and its table walks are subject to stage 2"""
+    return M.virt_ext() and not M.is_secure() and not M.is_hyp()
+
+
+def second_stage_translate(M, s1_out, mva, iswrite):
+    """SecondStageTranslate(): the address of a stage-1 descriptor is an IPA. Returns the PA the descriptor is read from."""
+    if not two_stage(M) or not (M.s['hcr'] & 1):
+        return s1_out
+    rec = walk_ld(M, s1_out, iswrite, regime='s2', va=mva, s2fs1walk=True)
+    check_ap_s2(M, rec, mva, s1_out, False, True)
+    if (M.s['hcr'] >> 2) & 1 and rec['memtype'] != NORMAL:
+        # HCR.PTW: a stage-1 walk through memory that stage 2 calls Device / Strongly-ordered is a stage-2 permission fault
+        raise Abort('permission', mva, iswrite, {'ldformat': True, 'hyp': True, 's2': True, 'ipa': s1_out, 'level': rec['level'], 's1ptw': True})
+    return rec['pa']
+
+
+def check_ap_s2(M, rec, mva, ipa, iswrite, s2fs1walk):
+    """CheckPermissionS2(): HAP<2> grants writes, HAP<1> grants reads; the IPA is reported only for faults on a stage-1 walk"""
+    hap = rec['ap'] >> 1
+    if (iswrite and not (hap >> 1) & 1) or (not iswrite and not hap & 1):
+        raise Abort('permission', mva, iswrite, {'ldformat': True, 'hyp': True, 's2': True, 'ipa': ipa if s2fs1walk else None, 'level': rec['level'],
+                                                 's1ptw': s2fs1walk})
+
+
+def s2_memtype(attr):
+    """stage-2 MemAttr<3:0> (B3.6.3 / table B3-9)"""
+    if (attr >> 2) == 0:
+        if (attr & 3) > 1:
+            raise Unpred('reserved stage-2 MemAttr encoding')
+        return (SO, DEVICE)[attr & 3]
+    if (attr & 3) == 0:
+        raise Unpred('reserved stage-2 MemAttr encoding')
+    return NORMAL
+
+
+def walk_ld(M, ia, iswrite, regime='pl10', va=None, s2fs1walk=False):
+    """long-descriptor walk (B3.19.6 TranslationTableWalkLD): regime 'pl10' = stage 1 of the PL1&0 regime (TTBR0/1, TTBCR), 'hyp' = stage 1 of the PL2
+    regime (HTTBR, HTCR), 's2' = stage 2 of the Non-secure PL1&0 regime (VTTBR, VTCR; `ia` is then a 40-bit IPA and `va` the address of the access that
+    caused the walk)"""
+    stage1 = regime != 's2'
+    if va is None:
+        va = ia & M32
+    # where a fault of this walk is taken and what it reports
+    ex = {'ldformat': True, 'hyp': regime != 'pl10', 's2': not stage1, 'ipa': None if stage1 else ia, 's1ptw': bool(s2fs1walk)}
     found = False
     disabled = False
-    t0 = ttbcr & 7
-    if t0 == 0 or (ia >> (32 - t0)) == 0:
-        level = 1 if (t0 >> 1) == 0 else 2
-        lb = 9 * level - t0 - 4
-        base = (M.s['ttbr0_64'] >> lb << lb) & ((1 << 40) - 1)
-        if bits(M.s['ttbr0_64'], lb - 1, 3):
-            raise Unpred('TTBR0 base not aligned')
-        found = True
-        disabled = (ttbcr >> 7) & 1
-        start = 31 - t0
-    t1 = (ttbcr >> 16) & 7
-    ones = t1 > 0 and bits(ia, 31, 32 - t1) == (1 << t1) - 1
-    if (t1 == 0 and not found) or ones:
-        level = 1 if (t1 >> 1) == 0 else 2
-        lb = 9 * level - t1 - 4
-        base = (M.s['ttbr1_64'] >> lb << lb) & ((1 << 40) - 1)
-        if bits(M.s['ttbr1_64'], lb - 1, 3):
-            raise Unpred('TTBR1 base not aligned')
-        found = True
-        disabled = (ttbcr >> 23) & 1
-        start = 31 - t1
+    if regime == 'hyp':
+        big = (M.s['hsctlr'] >> 25) & 1
+        t0 = M.s['htcr'] & 7
+        if t0 == 0 or (ia >> (32 - t0)) == 0:
+            level = 1 if (t0 >> 1) == 0 else 2
+            lb = 9 * level - t0 - 4
+            base = (M.s['httbr'] >> lb << lb) & ((1 << 40) - 1)
+            if bits(M.s['httbr'], lb - 1, 3):
+                raise Unpred('HTTBR base not aligned')
+            found = True
+            start = 31 - t0
+    elif regime == 'pl10':
+        ttbcr = M.s['ttbcr']
+        big = (M.s['sctlr'] >> 25) & 1
+        t0 = ttbcr & 7
+        if t0 == 0 or (ia >> (32 - t0)) == 0:
+            level = 1 if (t0 >> 1) == 0 else 2
+            lb = 9 * level - t0 - 4
+            base = (M.s['ttbr0_64'] >> lb << lb) & ((1 << 40) - 1)
+            if bits(M.s['ttbr0_64'], lb - 1, 3):
+                raise Unpred('TTBR0 base not aligned')
+            found = True
+            disabled = (ttbcr >> 7) & 1
+            start = 31 - t0
+        t1 = (ttbcr >> 16) & 7
+        ones = t1 > 0 and bits(ia, 31, 32 - t1) == (1 << t1) - 1
+        if (t1 == 0 and not found) or ones:
+            level = 1 if (t1 >> 1) == 0 else 2
+            lb = 9 * level - t1 - 4
+            base = (M.s['ttbr1_64'] >> lb << lb) & ((1 << 40) - 1)
+            if bits(M.s['ttbr1_64'], lb - 1, 3):
+                raise Unpred('TTBR1 base not aligned')
+            found = True
+            disabled = (ttbcr >> 23) & 1
+            start = 31 - t1
+    else:
+        big = (M.s['hsctlr'] >> 25) & 1
+        vtcr = M.s['vtcr']
+        t0 = vtcr & 15
+        if ((vtcr >> 4) & 1) != (t0 >> 3):
+            raise Unpred('VTCR.S differs from VTCR.T0SZ<3>')
+        if t0 & 8:
+            t0 -= 16
+        sl0 = (vtcr >> 6) & 3
+        if sl0 > 1 or (sl0 == 0 and t0 < -2) or (sl0 == 1 and t0 > 1):
+            raise Unpred('VTCR.SL0 / T0SZ combination')
+        lb = 14 - t0 - 9 * sl0
+        if bits(M.s['vttbr'], lb - 1, 3):
+            raise Unpred('VTTBR base not aligned')
+        if t0 == -8 or (ia >> (32 - t0)) == 0:
+            level = 2 - sl0
+            base = (M.s['vttbr'] >> lb << lb) & ((1 << 40) - 1)
+            found = True
+            start = 31 - t0
     if not found or disabled:
-        raise Abort('translation', ia, iswrite, dict(ex, level=1))
+        raise Abort('translation', va, iswrite, dict(ex, level=1))
     first = True
     rw, user, xnt, pxnt = True, True, False, False
-    secure = M.is_secure()
-    lookup_secure = secure
+    nested = regime == 'pl10' and two_stage(M)
     for _ in range(4):
         offset = 9 * level
         if first:
@@ -151,19 +221,21 @@ def walk_ld(M, ia, iswrite):
         else:
             sel = bits(ia, 47 - offset, 39 - offset) << 3
         first = False
-        desc = read_desc(M, base | sel, 8, big)
+        daddr = base | sel
+        if nested:
+            daddr = second_stage_translate(M, daddr, ia & M32, iswrite)
+        desc = read_desc(M, daddr, 8, big)
         if not desc & 1:
-            raise Abort('translation', ia, iswrite, dict(ex, level=level))
+            raise Abort('translation', va, iswrite, dict(ex, level=level))
         block = False
         if not (desc >> 1) & 1:
             if level == 3:
-                raise Abort('translation', ia, iswrite, dict(ex, level=level))
+                raise Abort('translation', va, iswrite, dict(ex, level=level))
             block = True
         elif level == 3:
             block = True
         else:
             base = bits(desc, 39, 12) << 12
-            lookup_secure = lookup_secure and not (desc >> 63) & 1
             rw = rw and not (desc >> 62) & 1
             user = user and not (desc >> 61) & 1
             pxnt = pxnt or bool((desc >> 59) & 1)
@@ -173,16 +245,24 @@ def walk_ld(M, ia, iswrite):
         ialen = 39 - offset
         pa = (bits(desc, 39, ialen) << ialen) | bits(ia, ialen - 1, 0)
         attrs = (bits(desc, 54, 52) << 10) | bits(desc, 11, 2)
-        if not rw:
-            attrs |= 1 << 5
-        if not user:
-            attrs &= ~(1 << 4)
+        if stage1:
+            if not rw:
+                attrs |= 1 << 5
+            if not user:
+                attrs &= ~(1 << 4)
         if not (attrs >> 8) & 1:
-            raise Abort('access_flag', ia, iswrite, dict(ex, level=level))
+            raise Abort('access_flag', va, iswrite, dict(ex, level=level))
         ap = (bits(attrs, 5, 4) << 1) | 1
-        idx = attrs & 7
-        mair = (M.s['mair1'] << 32) | M.s['mair0']
-        field = (mair >> (8 * idx)) & 0xFF
+        if not stage1:
+            return dict(pa=pa, domain=None, level=level, ap=ap, memtype=s2_memtype(attrs & 15), ld=True)
+        if regime == 'hyp':
+            # the PL2 regime has no unprivileged accesses, no PXN and no ASIDs: AP<1> and APTable<0> are SBO / SBZ, PXN, PXNTable and nG SBZ
+            if not (attrs >> 4) & 1 or not user or (attrs >> 11) & 1 or pxnt or (attrs >> 9) & 1:
+                raise Unpred('Hyp-mode descriptor with AP<1> = 0, APTable<0> = 1, PXN, PXNTable or nG')
+            mair = (M.s['hmair1'] << 32) | M.s['hmair0']
+        else:
+            mair = (M.s['mair1'] << 32) | M.s['mair0']
+        field = (mair >> (8 * (attrs & 7))) & 0xFF
         if (field >> 4) == 0:
             memtype = {0: SO, 4: DEVICE}.get(field & 15)
         else:
@@ -198,57 +278,59 @@ def check_ap(M, ap, mva, ispriv, iswrite, extra):
 
 
 def translate_v(M, va, ispriv, iswrite, size, wasaligned, want_attrs=False):
+    """TranslateAddressV() (B3.19.7)"""
     mva = fcse(M, va)
     hyp = M.is_hyp()
-    if hyp:
-        # PL2 regime: modelled with its MMU off only (flat map, Strongly-ordered whatever HCR.DC says, so a split unaligned access faults);
-        # HSCTLR.M = 1 (long-descriptor walk through HTTBR) is not modelled
-        if M.s.get('hsctlr', 0) & 1:
-            raise Skip('Hyp translation regime with HSCTLR.M = 1')
-        if mva != (va & 0xFFFFFFFF):
-            raise Skip('FCSE and Hyp mode')
-        if not wasaligned:
-            raise Abort('alignment', mva, iswrite, {'hyp': True})
-        return (mva, SO) if want_attrs else mva
-    enabled = M.s['sctlr'] & 1
-    if M.virt_ext() and not M.is_secure() and (M.s['hcr'] & 1):
-        raise Skip('stage 2 translation')
-    if not enabled:
-        # stage 1 off: flat map, Strongly-ordered => an unaligned (byte-wise) access faults
-        if M.virt_ext() and not M.is_secure() and (M.s['hcr'] >> 12) & 1:
-            raise Skip('HCR.DC')
-        if not wasaligned:
-            if not M.virt_ext():
-                raise Unpred('unaligned access to Strongly-ordered memory (MMU off)')
-            raise Abort('alignment', mva, iswrite)
-        return (mva, SO) if want_attrs else mva
-    if M.virt_ext() and not M.is_secure() and (M.s['hcr'] >> 27) & 1:
-        raise Unpred('HCR.TGE with stage 1 enabled')
-    uses_ld = bool((M.s['ttbcr'] >> 31) & 1)
-    if uses_ld:
-        if not M.cfg.get('have_lpae'):
-            raise Unpred('TTBCR.EAE without LPAE')
-        rec = walk_ld(M, mva, iswrite)
+    if hyp and mva != (va & 0xFFFFFFFF):
+        raise Skip('FCSE and Hyp mode')           # (whether the PL2 regime sees FCSE-modified addresses is not something this reference takes a position on)
+    two = two_stage(M)
+    hcr = M.s['hcr'] if M.virt_ext() else 0
+    enabled = (M.s['hsctlr'] if hyp else M.s['sctlr']) & 1
+    uses_ld = False
+    if enabled:
+        if two and (hcr >> 27) & 1:
+            raise Unpred('HCR.TGE with stage 1 enabled')
+        uses_ld = hyp or bool((M.s['ttbcr'] >> 31) & 1)
+        if uses_ld:
+            if not M.cfg.get('have_lpae'):
+                raise Unpred('TTBCR.EAE without LPAE')
+            rec = walk_ld(M, mva, iswrite, regime='hyp' if hyp else 'pl10')
+        else:
+            rec = walk_sd(M, mva, iswrite)
+        if rec['memtype'] is None:
+            raise Skip('IMPLEMENTATION DEFINED / UNKNOWN memory type')
     else:
-        rec = walk_sd(M, mva, iswrite)
-    if rec['memtype'] is None:
-        raise Skip('IMPLEMENTATION DEFINED / UNKNOWN memory type')
+        # stage 1 off: flat map, Strongly-ordered (so an unaligned, byte-wise access faults) - or Normal for a guest running with HCR.DC
+        rec = dict(pa=mva, memtype=SO, level=None, domain=None, ap=None)
+        if two and (hcr >> 12) & 1:
+            if not hcr & 1:
+                raise Unpred('HCR.DC without HCR.VM')
+            rec['memtype'] = NORMAL
     if not wasaligned and rec['memtype'] in (SO, DEVICE):
         if not M.virt_ext():
             raise Unpred('unaligned access to Device / Strongly-ordered memory')
-        raise Abort('alignment', mva, iswrite, {'ldformat': uses_ld})
-    extra = {'level': rec['level'], 'domain': rec['domain'], 'ldformat': uses_ld}
-    check = True
-    if not uses_ld:
-        d = (M.s['dacr'] >> (2 * rec['domain'])) & 3
-        if d == 0:
-            raise Abort('domain', mva, iswrite, extra)
-        if d == 2:
-            raise Unpred('DACR field 10')
-        check = d == 1
-    if check:
-        check_ap(M, rec['ap'], mva, ispriv, iswrite, extra)
-    return (rec['pa'], rec['memtype']) if want_attrs else rec['pa']
+        raise Abort('alignment', mva, iswrite, {'ldformat': hyp or uses_ld, 'hyp': hyp, 'from_translate': True})
+    if enabled:
+        extra = {'level': rec['level'], 'domain': rec['domain'], 'ldformat': uses_ld, 'hyp': hyp}
+        check = True
+        if not uses_ld:
+            d = (M.s['dacr'] >> (2 * rec['domain'])) & 3
+            if d == 0:
+                raise Abort('domain', mva, iswrite, extra)
+            if d == 2:
+                raise Unpred('DACR field 10')
+            check = d == 1
+        if check:
+            check_ap(M, rec['ap'], mva, ispriv, iswrite, extra)
+    pa, memtype = rec['pa'], rec['memtype']
+    if two and hcr & 1:
+        rec2 = walk_ld(M, pa, iswrite, regime='s2', va=mva)
+        if not wasaligned and rec2['memtype'] in (SO, DEVICE):
+            raise Abort('alignment', mva, iswrite, {'ldformat': True, 'hyp': True, 's2': True, 'from_translate': True})
+        check_ap_s2(M, rec2, mva, pa, iswrite, False)
+        pa = rec2['pa']
+        memtype = SO if SO in (memtype, rec2['memtype']) else DEVICE if DEVICE in (memtype, rec2['memtype']) else NORMAL
+    return (pa, memtype) if want_attrs else pa
 
 
 SD_FS = {'alignment': 0b00001, 'translation': (0b00101, 0b00111), 'access_flag': (0b00011, 0b00110), 'domain': (0b01001, 0b01011),
@@ -257,19 +339,42 @@ LD_FS = {'translation': 0b000100, 'access_flag': 0b001000, 'permission': 0b00110
 
 
 def report_abort(M, ab):
-    """DFSR/DFAR for a synchronous data abort on VMSA (B3.13, B4.1.52)"""
-    if M.is_hyp():
-        if ab.kind != 'alignment':
-            raise Skip('Hyp-mode fault syndromes')
-        if fcse(M, ab.addr & M32) != (ab.addr & M32):
-            raise Skip('FCSE and Hyp mode')          # (whether the PL2 regime sees FCSE-modified addresses is not something this reference takes a position on)
-        # Data Abort taken from Hyp mode to Hyp mode: HSR.EC = 0x25, ISS = WnR : DFSC (alignment = 100001); HDFAR = address; DFSR / DFAR untouched
+    """DFSR/DFAR - or HSR/HDFAR/HPFAR when the abort is taken to Hyp mode - for a synchronous data abort on VMSA (B3.13, B4.1.52, B3.13.6)"""
+    ex = ab.extra
+    tge = M.virt_ext() and (M.s.get('hcr', 0) >> 27) & 1
+    to_hyp = bool(ex.get('hyp')) or (M.is_hyp() and 'hyp' not in ex)
+    tge_alignment = False
+    if ab.kind == 'alignment' and tge and not to_hyp:
+        # AlignmentFault(): taketohypmode = CurrentModeIsHyp() || HCR.TGE == '1'. Modelled where the architecture is unambiguous: a Non-secure User
+        # mode access checked by MemA / MemU itself; elsewhere (Secure state, PL1 modes, faults found by the translation) no position is taken
+        if ex.get('from_translate') or M.is_secure() or M.mode != 0b10000:
+            raise Skip('alignment fault with HCR.TGE outside Non-secure User mode')
+        to_hyp = tge_alignment = True
+    if to_hyp:
+        if fcse(M, ab.addr & M32) != (ab.addr & M32) and ab.kind == 'alignment' and not ex.get('from_translate'):
+            raise Skip('FCSE and faults taken to Hyp mode')
         if not M.hooked:
             raise NotImpl('TLBLookupCameFromCacheMaintenance')
-        M.write_hsr(0b100101, ((1 if ab.iswrite else 0) << 6) | 0b100001)
+        level = ex.get('level') or 0
+        fsc = 0b100001 if ab.kind == 'alignment' else (LD_FS[ab.kind] | (level & 3))
+        iss = ((1 if ex.get('s1ptw') else 0) << 7) | ((1 if ab.iswrite else 0) << 6) | fsc
         M.s['hdfar'] = ab.addr & M32
+        if ex.get('ipa') is not None:
+            M.s['hpfar'] = (M.s['hpfar'] & 0xF) | (((ex['ipa'] >> 12) & 0xFFFFFFF) << 4)
+        if ex.get('s2'):
+            # a stage-2 abort: EC = 0x24 and ISS<24:16> = LSInstructionSyndrome() (filled in by the instruction's semantics when it provides one)
+            syn = getattr(M, 'ls_syndrome', None)
+            M.write_hsr(0b100100, iss | ((syn or 0) << 16))
+            if syn is None:
+                M.unknown_bits['hsr'] = M.unknown_bits.get('hsr', 0) | (0x1FF << 16)
+        else:
+            M.write_hsr(0b100101, iss)
+            if tge_alignment:
+                # the pseudocode gives EC = 0x25 ("taken from Hyp mode") for every abort that is not a stage-2 abort, the text of B3.13.6 gives 0x24 for
+                # aborts routed to Hyp mode from other modes: EC<0> is not compared
+                M.unknown_bits['hsr'] = M.unknown_bits.get('hsr', 0) | (1 << 26)
         return
-    if M.virt_ext() and (M.s.get('hcr', 0) >> 27) & 1 and ab.kind == 'alignment':
+    if tge and ab.kind == 'alignment':
         raise Skip('alignment fault routed to Hyp mode (HCR.TGE)')
     addr = ab.addr & M32
     if ab.kind == 'alignment':
